@@ -205,6 +205,7 @@ func init() {
 		}
 		s.FS.Default = legal
 		faultPath, faultKind, faultAt := "", "", int64(-1)
+		stdinErrAt := int64(-1)
 		if rc.Faults && len(mentions) > 0 && t.FBool(4, 5) {
 			// only regular files that are read as they are on disk get a positional read error
 			cand := mentions[t.F(len(mentions))]
@@ -225,6 +226,11 @@ func init() {
 			if t.FBool(1, 2) {
 				sp.LatPermille = []int{200, 600, 1000}[t.F(3)]
 				sp.LatMaxMs = []int{40, 300, 700}[t.F(3)]
+			}
+			if rc.Faults && t.FBool(1, 3) {
+				// a read fault on standard input (EIO mid-stream, a closed descriptor)
+				stdinErrAt = int64(t.F(len(stdinData) + 1))
+				sp.ErrAt, sp.ErrWithData = stdinErrAt, t.FBool(1, 2)
 			}
 			s.StdinR = &simrt.ScriptReader{Name: "<stdin>", Data: stdinData, Plan: sp}
 		}
@@ -271,6 +277,9 @@ func init() {
 		}
 		if useStdin {
 			exp["<stdin>"] = &c06Expect{Path: "<stdin>", Mentions: 1, Lines: c06Lines(stdinData)}
+			if stdinErrAt >= 0 {
+				exp["<stdin>"] = &c06Expect{Path: "<stdin>", Mentions: 1, Fails: true, Why: fmt.Sprintf("injected read error at byte %d of standard input", stdinErrAt), Lines: c06Lines(stdinData[:stdinErrAt])}
+			}
 			expOrder = append(expOrder, "<stdin>")
 		}
 		sample := map[string]any{"args": append(append([]string{}, flags...), args...), "tree": func() []string {
